@@ -302,7 +302,7 @@ func (e *fnEnc) call(st *state, at ssa.Value, c *ssa.CallCommon, instr ssa.Instr
 			results = append(results, tval{term: n, typ: t})
 		}
 	}
-	if fc == nil && callee != nil && (e.V.SweepSet[funcKey(callee)] || e.V.Sweep) && len(callee.Params) == len(args) {
+	if fc == nil && callee != nil && (e.V.SweepSet[funcKey(callee)] || (e.V.Sweep && inRepo(callee))) && len(callee.Params) == len(args) {
 		// swept callee: its default precondition (non-nil pointer/map parameters) is an
 		// obligation here
 		for i, p := range callee.Params {
@@ -1032,4 +1032,11 @@ func (e *fnEnc) closureEnv(st, old *state, mc *ssa.MakeClosure, args []tval) *en
 		}
 	}
 	return en
+}
+
+func inRepo(f *ssa.Function) bool {
+	for f.Parent() != nil {
+		f = f.Parent()
+	}
+	return f.Pkg != nil && strings.HasPrefix(f.Pkg.Pkg.Path(), modPrefix())
 }
